@@ -1422,11 +1422,14 @@ func (h *ResponseHeader) setSpecialHeader(key, value []byte) bool {
 			h.SetContentEncodingBytes(value)
 			return true
 		case caseInsensitiveCompare(strConnection, key):
-			if bytes.Equal(strClose, value) {
+			if caseInsensitiveCompare(strClose, value) {
 				h.SetConnectionClose()
 			} else {
 				h.ResetConnectionClose()
 				h.setNonSpecial(key, value)
+				// The value is a list of case-insensitive tokens,
+				// 'close' may be one of them.
+				h.connectionClose = hasHeaderValue(value, strClose)
 			}
 			return true
 		}
@@ -1483,11 +1486,14 @@ func (h *RequestHeader) setSpecialHeader(key, value []byte) bool {
 			}
 			return true
 		case caseInsensitiveCompare(strConnection, key):
-			if bytes.Equal(strClose, value) {
+			if caseInsensitiveCompare(strClose, value) {
 				h.SetConnectionClose()
 			} else {
 				h.ResetConnectionClose()
 				h.setNonSpecial(key, value)
+				// The value is a list of case-insensitive tokens,
+				// 'close' may be one of them.
+				h.connectionClose = hasHeaderValue(value, strClose)
 			}
 			return true
 		case caseInsensitiveCompare(strCookie, key):
@@ -3068,10 +3074,12 @@ func (h *ResponseHeader) parseHeaders(buf []byte) (int, error) {
 				continue
 			}
 			if caseInsensitiveCompare(s.key, strConnection) {
-				if bytes.Equal(s.value, strClose) {
+				if caseInsensitiveCompare(s.value, strClose) {
 					h.connectionClose = true
 				} else {
-					h.connectionClose = false
+					// The value is a list of case-insensitive tokens,
+					// 'close' may be one of them.
+					h.connectionClose = hasHeaderValue(s.value, strClose)
 					h.h = appendArgBytes(h.h, s.key, s.value, argsHasValue)
 				}
 				continue
@@ -3258,10 +3266,12 @@ func (h *RequestHeader) parseHeaders(buf []byte, blockEnd int) (int, error) {
 				continue
 			}
 			if caseInsensitiveCompare(s.key, strConnection) {
-				if bytes.Equal(s.value, strClose) {
+				if caseInsensitiveCompare(s.value, strClose) {
 					h.connectionClose = true
 				} else {
-					h.connectionClose = false
+					// The value is a list of case-insensitive tokens,
+					// 'close' may be one of them.
+					h.connectionClose = hasHeaderValue(s.value, strClose)
 					h.h = appendArgBytes(h.h, s.key, s.value, argsHasValue)
 				}
 				continue
